@@ -260,7 +260,27 @@ pub fn run(ctx: &mut Ctx) {
             let text = String::from_utf8_lossy(&raw).to_string();
             let toks: Vec<&str> = text.split_whitespace().collect();
             judge(ctx, &text, Some(&toks), &empty, &is, &names, "tape-as-text");
-            ctx.rec.count("tape_texts", 1);
+            // the same tokens REPAIRED into a balanced program (unmatched ")" dropped, missing ones
+            // appended): every tape becomes a structural comparison, and nesting depth is rewarded
+            let mut rep: Vec<&str> = Vec::with_capacity(toks.len() + 8);
+            let mut depth = 0usize;
+            for t in toks.iter() {
+                if *t == ")" {
+                    if depth == 0 {
+                        continue;
+                    }
+                    depth -= 1;
+                } else if *t == "(" {
+                    depth += 1;
+                }
+                rep.push(t);
+            }
+            for _ in 0..depth {
+                rep.push(")");
+            }
+            let rtext = rep.join(" ");
+            judge(ctx, &rtext, Some(&rep), &empty, &is, &names, "tape-as-text-repaired");
+            ctx.rec.count("tape_texts", 2);
         }
         case = 0;
     }
